@@ -7,6 +7,7 @@ from ..kinds import FIELD_TYPES, SCALAR_FIELDS, CONCRETE, kinds_of, field_class
 from ..effects import root_and_depth
 from ..typestate import classify_set
 from . import register
+from ..inline import inlined_view
 
 DATA_SCALARS = {"_direction", "_is_downto", "_is_scalar", "_lower_index", "_data"}
 POINTER_FIELDS = {f for (c, f), t in FIELD_TYPES.items()}
@@ -283,6 +284,10 @@ def _aliases_source(v):
     return isinstance(v, ast.Attribute) and norm(v).startswith("self.")
 
 
+def _is_clone_name(name):
+    return name.startswith("_clone") and not name.startswith("_clone_top")
+
+
 def _l1_l2_l4(ctx, R, CM):
     P = ctx.P
     R.rule("L7", "no container aliasing: a list / set / dict slot of the copy is never assigned the source's container object itself")
@@ -373,7 +378,7 @@ def _l1_l2_l4(ctx, R, CM):
     R.count("_clone methods (L1/L2/L4)", n)
     R.floor("_clone methods (L1/L2/L4)", 9)
     # the top-instance flag: the cloned netlist's top instance must be flagged
-    nl = P.func("spydrnet/ir/netlist.py", "Netlist._clone")
+    nl = inlined_view(P, P.func("spydrnet/ir/netlist.py", "Netlist._clone"), keep=_is_clone_name)
     c = _copy_var(nl)
     flagged = False
     for nn in walk_local(nl.node):
